@@ -566,8 +566,14 @@ func genRDP(tier string, yield func(Case) bool) bool {
 		json string
 		hash string
 		re   *regexp.Regexp
+		// ipPort: an IP or port filter is configured; only a routing TOKEN carries an IP and a
+		// port, so a request with a mstshash cookie or without routing info cannot satisfy it
+		ipPort bool
 	}
-	cfgs := []cfg{{`{}`, "", nil}, {`{"cookie_hash":"a0123"}`, "a0123", nil}, {`{"cookie_hash_regexp":"^[a-z]\\d+$"}`, "", regexp.MustCompile(`^[a-z]\d+$`)}}
+	cfgs := []cfg{{`{}`, "", nil, false}, {`{"cookie_hash":"a0123"}`, "a0123", nil, false}, {`{"cookie_hash_regexp":"^[a-z]\\d+$"}`, "", regexp.MustCompile(`^[a-z]\d+$`), false},
+		{`{"cookie_ips":["127.0.0.1/8"]}`, "", nil, true}, {`{"cookie_ports":[3389]}`, "", nil, true},
+		{`{"cookie_hash":"a0123","cookie_ips":["10.0.0.0/8"]}`, "a0123", nil, true},
+		{`{"cookie_hash_regexp":"^[a-z]\\d+$","cookie_ports":[3389,3390]}`, "", regexp.MustCompile(`^[a-z]\d+$`), true}}
 	for _, c := range cfgs {
 		type variant struct {
 			cookie string
@@ -601,6 +607,9 @@ func genRDP(tier string, yield func(Case) bool) bool {
 			}
 			if c.re != nil {
 				want = want && v.cookie != "" && c.re.MatchString(hash)
+			}
+			if c.ipPort {
+				want = false
 			}
 			m := rdpConnReq(3, 0, x224(len(payload), 0xE0, 0, 0, 0, 0), payload)
 			if !yield(mk("rdp", "rdp", c.json, false, m, want, v.why)) {
